@@ -200,7 +200,7 @@ func RunOne(t *testing.T, h Harness, prop string, plan any, cfg simrt.Config) (r
 	if rc.failure == nil && len(rc.Stats.MapRaces) > 0 {
 		// one violation per pair of access sites, so that a listed finding does not cover a different pair
 		rc.failure = &simrt.Failure{Class: prop + ".map-race",
-			Witness: "two goroutines access a map without synchronisation between them; when they overlap the Go runtime aborts the process (" + rc.Stats.MapRaces[0] + ")",
+			Witness: "two goroutines access a map or linked list without synchronisation between them; when they overlap the Go runtime aborts the process or the container is corrupted (" + rc.Stats.MapRaces[0] + ")",
 			Detail:  strings.Join(rc.Stats.MapRaces, "; ")}
 	}
 	if cfg.Race && simrt.RaceBuild {
@@ -468,7 +468,9 @@ func minimise(t *testing.T, name string, h Harness) {
 		watchdogCh <- "minimise"
 		rc, s := RunOne(t, h, rf.Property, p, cfg)
 		watchdogCh <- ""
-		return rc, s, rc.failure != nil && rc.failure.Class == rf.Class
+		// the same violation: class and witness (the witness names the situation and is what the list of known
+		// findings is matched on; shrinking must not turn an unlisted situation into a listed one)
+		return rc, s, rc.failure != nil && rc.failure.Class == rf.Class && (rf.Witness == "" || rc.failure.Witness == rf.Witness)
 	}
 	cfg := replayCfg(rf)
 	rc, s, ok := try(plan, cfg)
